@@ -21,6 +21,9 @@ pub struct Case {
     pub sum_delta: u32,
     pub key: u64,
     pub place: Place,
+    /// the checksum word is the magic constant itself (sum_delta is ignored)
+    #[serde(default)]
+    pub sum_is_magic: bool,
 }
 
 pub const MAX_LEN: u32 = 1 << 20;
@@ -31,7 +34,7 @@ fn region(c: &Case) -> Vec<u8> {
     put32(&mut v, 0, c.magic);
     put32(&mut v, 4, c.arch);
     put32(&mut v, 8, c.len);
-    put32(&mut v, 12, model_checksum(c.magic, c.arch, c.len).wrapping_add(c.sum_delta));
+    put32(&mut v, 12, if c.sum_is_magic { HDR_MAGIC } else { model_checksum(c.magic, c.arch, c.len).wrapping_add(c.sum_delta) });
     v
 }
 
@@ -99,7 +102,7 @@ fn magics() -> Vec<u32> {
 }
 
 fn enumerate(ctx: &Ctx) -> Box<dyn Iterator<Item = Case>> {
-    let mut v = vec![Case { null: true, magic: 0, arch: 0, len: 0, sum_delta: 0, key: 0, place: Place::End }];
+    let mut v = vec![Case { null: true, magic: 0, arch: 0, len: 0, sum_delta: 0, key: 0, place: Place::End, sum_is_magic: false }];
     let top = if ctx.tier == Tier::Thorough { 256 } else { 80 };
     for len in 0..=top {
         for arch in [0u32, 4] {
@@ -108,7 +111,10 @@ fn enumerate(ctx: &Ctx) -> Box<dyn Iterator<Item = Case>> {
                     continue;
                 }
                 for sum_delta in [0u32, 1, u32::MAX] {
-                    v.push(Case { null: false, magic, arch, len, sum_delta, key: len as u64, place: if len % 40 == 0 { Place::Start } else { Place::End } });
+                    v.push(Case { null: false, magic, arch, len, sum_delta, key: len as u64, place: if len % 40 == 0 { Place::Start } else { Place::End }, sum_is_magic: false });
+                    if sum_delta == 1 {
+                        v.push(Case { null: false, magic, arch, len, sum_delta, key: len as u64, place: Place::End, sum_is_magic: true });
+                    }
                 }
             }
         }
@@ -125,8 +131,9 @@ fn strategy(_: &Ctx) -> BoxedStrategy<Case> {
         prop_oneof![5 => Just(0u32), 1 => Just(1u32), 1 => Just(u32::MAX), 1 => any::<u32>()],
         any::<u64>(),
         prop_oneof![4 => Just(Place::End), 1 => Just(Place::Start)],
+        prop_oneof![9 => Just(false), 1 => Just(true)],
     )
-        .prop_map(|(null, magic, arch, len, sum_delta, key, place)| Case { null, magic, arch, len, sum_delta, key, place })
+        .prop_map(|(null, magic, arch, len, sum_delta, key, place, sum_is_magic)| Case { null, magic, arch, len, sum_delta, key, place, sum_is_magic })
         .boxed()
 }
 
@@ -311,7 +318,7 @@ pub fn subs() -> Vec<Box<dyn Sub>> {
     vec![
         Box::new(PropSub::<Case> {
             name: "load",
-            rule: "Multiboot2Header::load on a guarded mapping of max(16, r8(length)) bytes with a defined architecture. Enumerated: null; every length 0..=80 (thorough 256) x both architectures x 11 magics (correct, byte-swapped, 0, other magics, 6 single-bit flips) x checksum {correct, +1, -1}; generated: lengths up to 1 MiB, random magics/checksum deltas. Oracle: Null > ShorterThanHeader (<16) > MissingPadding (%8) > MagicNotFound > ChecksumMismatch > Ok, never a panic. Non-trivial = anything but the plain valid 16-byte header; distinct by the four header words",
+            rule: "Multiboot2Header::load on a guarded mapping of max(16, r8(length)) bytes with a defined architecture. Enumerated: null; every length 0..=80 (thorough 256) x both architectures x 11 magics (correct, byte-swapped, 0, other magics, 6 single-bit flips) x checksum {correct, +1, -1, the magic constant itself}; generated: lengths up to 1 MiB, random magics/checksum deltas. Oracle: Null > ShorterThanHeader (<16) > MissingPadding (%8) > MagicNotFound > ChecksumMismatch > Ok, never a panic. Non-trivial = anything but the plain valid 16-byte header; distinct by the four header words",
             profiles: Profiles::Both,
             quick: 4000,
             thorough: 100000,
